@@ -102,13 +102,13 @@ type execResult struct {
 	Faults     map[string]int `json:"faults,omitempty"`
 	Probes     map[string]int `json:"probes,omitempty"`
 	NonTrivial bool           `json:"nontrivial,omitempty"`
-	Invalid bool        `json:"invalid"`
-	Why     string      `json:"why,omitempty"`
-	Viol    []Violation `json:"viol"`
-	Digest  string      `json:"digest"`
-	Events  int         `json:"events"`
-	Trace   string      `json:"trace,omitempty"`
-	Lines   []string    `json:"lines,omitempty"`
+	Invalid    bool           `json:"invalid"`
+	Why        string         `json:"why,omitempty"`
+	Viol       []Violation    `json:"viol"`
+	Digest     string         `json:"digest"`
+	Events     int            `json:"events"`
+	Trace      string         `json:"trace,omitempty"`
+	Lines      []string       `json:"lines,omitempty"`
 }
 
 type replayFile struct {
